@@ -47,6 +47,7 @@ func RunSeq(c SeqCase) pbt.Outcome {
 	}
 	hist := ""
 	inside := 0
+	maxLen := len(model)
 	for step, op := range c.Ops {
 		if op.B < 0 || op.K < 0 || op.K >= len(seqOpNames) {
 			continue
@@ -74,7 +75,7 @@ func RunSeq(c SeqCase) pbt.Outcome {
 		case 1:
 			idx := mod(op.A, n+1)
 			vals := fresh(op.B)
-			call = fmt.Sprintf("InsertSlice(index=%d, values=%v)", idx, []int(vals))
+			call = fmt.Sprintf("InsertSlice(index=%d, values=%s)", idx, show(vals))
 			want = append(append(append([]int{}, model[:idx]...), vals...), model[idx:]...)
 			p = try(func() { slices.InsertSlice(&s, idx, vals) })
 			if sp > 0 && idx > 0 && idx < n && op.B > 0 {
@@ -117,7 +118,7 @@ func RunSeq(c SeqCase) pbt.Outcome {
 			p = try(func() { s = slices.Clone(s) })
 		case 7:
 			vals := fresh(op.B)
-			call = fmt.Sprintf("s = Concat(s, %v)", []int(vals))
+			call = fmt.Sprintf("s = Concat(s, %s)", show(vals))
 			want = append(append([]int{}, model...), vals...)
 			old := full
 			p = try(func() { s = slices.Concat(s, vals) })
@@ -129,8 +130,8 @@ func RunSeq(c SeqCase) pbt.Outcome {
 				}
 				for i := range old {
 					if old[i] != snap[i] {
-						return pbt.Fail("step %d %s on %v (len %d cap %d): result shares memory with input a (slot %d changed when the result was written); history:%s",
-							step, call, model, n, n+sp, i, hist)
+						return pbt.Fail("step %d %s on %s (len %d cap %d): result shares memory with input a (slot %d changed when the result was written); history:%s",
+							step, call, show(model), n, n+sp, i, hist)
 					}
 				}
 				for i := range s {
@@ -148,12 +149,13 @@ func RunSeq(c SeqCase) pbt.Outcome {
 		}
 		out.Evals++
 		if p != nil {
-			return pbt.Fail("step %d: %s on %v (len %d cap %d) panicked: %v; history:%s", step, call, model, n, n+sp, p, hist)
+			return pbt.Fail("step %d: %s on %s (len %d cap %d) panicked: %v; history:%s", step, call, show(model), n, n+sp, p, hist)
 		}
 		if !eq(s, want) {
-			return pbt.Fail("step %d: %s on %v (len %d cap %d) gave %v, want %v; history:%s", step, call, model, n, n+sp, []int(s), want, hist)
+			return pbt.Fail("step %d: %s on %s (len %d cap %d) gave %s, want %s%s; history:%s", step, call, show(model), n, n+sp, show(s), show(want), where(s, want), hist)
 		}
 		model = want
+		maxLen = max(maxLen, len(model))
 		if len(hist) < 600 {
 			hist += " " + call + ";"
 		}
@@ -168,6 +170,7 @@ func RunSeq(c SeqCase) pbt.Outcome {
 	if out.Evals == 0 {
 		out.Evals = 1
 	}
+	out.Labels = append(out.Labels, "seq:max-"+bigLabel(maxLen))
 	switch {
 	case inside == 0:
 		out.Labels = append(out.Labels, "seq:inside-splices=0")
@@ -185,17 +188,31 @@ var specSeq = pbt.Register(&pbt.Spec[SeqCase]{
 	Rule: "rapid: a history of 1..24 helper calls (Insert, InsertSlice, Remove, RemoveSlice, Reverse, Grow, Clone, Concat, Fill) on one " +
 		"slice (initial len 0..8, spare 0..4), so capacities are the ones append growth really produces; the spare capacity is re-poisoned " +
 		"before every call; after every call the slice equals the model built with fresh appends; indices are raw ints reduced modulo the " +
-		"live length; non-trivial = at least one Insert/InsertSlice/Remove/RemoveSlice strictly inside a slice that had spare capacity",
+		"live length; 1 history in 8 is BIG: initial len 0..1200 (uniform, next to a power of two or next to a multiple of 64) and batch sizes " +
+		"(InsertSlice / Concat / Grow / RemoveSlice lengths) up to 700 in a third of the calls, so that the slice crosses the 256 / 512 / 1024 ... " +
+		"capacity thresholds through the library's own growth, repeatedly; non-trivial = at least one Insert/InsertSlice/Remove/RemoveSlice " +
+		"strictly inside a slice that had spare capacity",
 	Gen: func(t *rapid.T) SeqCase {
 		c := SeqCase{Len: rapid.IntRange(0, 8).Draw(t, "len"), Spare: rapid.IntRange(0, 4).Draw(t, "spare")}
+		big := rapid.IntRange(0, 7).Draw(t, "big") == 0
+		if big {
+			c.Len = drawSize(t, 1200, "biglen")
+		}
 		// weights: splices dominate; Fill is rare
 		kinds := []int{0, 0, 0, 1, 1, 1, 2, 2, 2, 3, 3, 3, 4, 5, 5, 6, 7, 7, 8}
 		c.Ops = rapid.SliceOfN(rapid.Custom(func(t *rapid.T) Op {
-			return Op{K: rapid.SampledFrom(kinds).Draw(t, "k"), A: rapid.IntRange(0, 40).Draw(t, "a"), B: rapid.IntRange(0, 6).Draw(t, "b")}
+			op := Op{K: rapid.SampledFrom(kinds).Draw(t, "k"), A: rapid.IntRange(0, 40).Draw(t, "a"), B: rapid.IntRange(0, 6).Draw(t, "b")}
+			if big {
+				op.A = rapid.IntRange(0, 3000).Draw(t, "big_a")
+				if rapid.IntRange(0, 2).Draw(t, "big_batch") == 0 {
+					op.B = drawSize(t, 700, "big_b")
+				}
+			}
+			return op
 		}), 1, 24).Draw(t, "ops")
 		return c
 	},
-	Run: RunSeq, Quick: 20000, Thorough: 100000,
+	Run: RunSeq, Quick: 30000, Thorough: 100000,
 })
 
 func TestC12Seq(t *testing.T) { pbt.Check(t, specSeq) }
